@@ -687,6 +687,20 @@ def merged_store(fl, stores):
     return val
 
 
+def pos_args(fl, e):
+    """positional arguments of call event `e` with the keyword arguments that continue them folded in (the callee's
+    parameter names are those of every definition of that name in the analysed tree, see _signatures); returns
+    (args, remaining keywords)"""
+    args = list(e.args)
+    kd = dict(e.kw or {})
+    sig = getattr(fl.tab, 'signatures', None)
+    sg = sig(e.name, getattr(e, 'recv', None) is not None) if sig is not None and e.name else None
+    if sg is not None:
+        while len(args) < len(sg) and sg[len(args)] in kd:
+            args.append(kd.pop(sg[len(args)]))
+    return args, kd
+
+
 def call_atom(fl, name, args, kw):
     """the atom Conv.call builds for name(*args, **kw): keyword arguments that continue the positional ones of a function
     of the analysed tree are positional (see Conv.call)"""
